@@ -8,6 +8,7 @@ harness runs the real code concurrently (with the race detector in the thorough 
 Outgoing headers (channel id, consecutive packet numbers) are C01's `stamp` theorems.
 -/
 import Dblib.Model.Mux
+import Dblib.Props.C12.Transmit
 
 namespace Dblib.Props.C12
 open Dblib.Mux Dblib.Gen.Shape
